@@ -335,6 +335,7 @@ class Ctx:
         self.aborted = 0
         self.inconclusive = []     # (reason, choices)
         self.findings = []
+        self.finding_counts = {}
         self.proved = 0
         self.proved_symbolic = 0
         self.samples = []
@@ -554,6 +555,10 @@ class Ctx:
         return None
 
     def _record(self, label, model, detail, sig, claim=None):
+        key = (label, tuple(sorted((k, str(v)) for k, v in sig.items())))
+        if self.finding_counts.get(key, 0) >= 3:
+            self.finding_counts[key] += 1
+            return
         pm = None
         try:
             pm = self._pretty_model(claim)
@@ -572,6 +577,10 @@ class Ctx:
                     values[name] = float(v.approx(20).as_fraction())
                 else:
                     values[name] = str(v)
+        key = (label, tuple(sorted((k, str(v)) for k, v in sig.items())))
+        self.finding_counts[key] = self.finding_counts.get(key, 0) + 1
+        if self.finding_counts[key] > 3:
+            return          # keep 3 examples per signature, keep exploring
         self.findings.append(Finding(label=label, detail=str(detail)[:400], sig=dict(sig),
                                      choices=list(self.choices), values=values,
                                      labels=list(self.labels), notes=_jsonable(self.notes)))
@@ -607,7 +616,7 @@ def pick(seq, label=''):
 
 
 # --------------------------------------------------------------------------- exploration driver
-def explore(fn, args=(), timeout_ms=20000, max_paths=None, time_budget=None, max_findings=40, nsamples=3):
+def explore(fn, args=(), timeout_ms=20000, max_paths=None, time_budget=None, max_findings=400, nsamples=3):
     """run `fn(*args)` over every control path; returns a statistics dict (picklable)"""
     global CTX
     c = Ctx('sym', timeout_ms=timeout_ms, max_paths=max_paths)
@@ -652,6 +661,7 @@ def explore(fn, args=(), timeout_ms=20000, max_paths=None, time_budget=None, max
             'proved_symbolic': c.proved_symbolic,
             'inconclusive': [(r, ch) for r, ch in c.inconclusive[:20]], 'n_inconclusive': len(c.inconclusive),
             'findings': [dict(f) for f in c.findings], 'samples': c.samples, 'truncated': truncated,
+            'finding_counts': {k[0] + str(dict(k[1])): v for k, v in c.finding_counts.items()},
             'reach': reach, 'wall_s': round(time.time() - t0, 3)}
 
 
